@@ -235,6 +235,17 @@ impl Cluster {
         t.replace('\n', " | ")
     }
 
+    /// lines of a node's log that mention a panic or a closed mailbox (dead actor)
+    pub fn log_alarms(&self, i: usize) -> Vec<String> {
+        std::fs::read_to_string(&self.nodes[i].log)
+            .unwrap_or_default()
+            .lines()
+            .filter(|l| l.contains("panicked") || l.contains("Mailbox has closed") || l.contains("unwrap()"))
+            .map(|l| l.chars().take(240).collect())
+            .take(6)
+            .collect()
+    }
+
     pub fn live(&mut self) -> Vec<usize> {
         (0..self.nodes.len()).filter(|i| self.is_running(*i) && !self.nodes[*i].stopped).collect()
     }
